@@ -60,7 +60,7 @@ Section Add.
     Core prev' r' acc' /\ Later r acc r' acc'.
   Proof.
     intros C Hk F Hch HO HD Hdecl Hnm Hd' Hrx Hattr i r' acc' Hcx.
-    destruct C as [Csok Cattr Cheld Cdom Creg CrR Ckeys Cdecl CkR Ccplx].
+    destruct C as [Csok Cattr Cheld Cdom Creg CrR Ckeys Cdecl CkR Ccplx Crot].
     pose proof (proj1 Csok) as I0. pose proof (ok_len _ _ (proj1 I0)) as Lc.
     assert (Hfresh : dlookup nm (dict_of k acc) = None).
     { rewrite <- (Creg k Hk). exact (proj1 F). }
@@ -112,6 +112,34 @@ Section Add.
       exists ri. split; [apply Hrx; exact H1 | eapply builtrxn_later; eauto].
     - intros n0 names sst Hin. destruct (Hcx n0 names sst Hin) as [Ho|Hn]; [|apply Hn; exact L].
       destruct (Ccplx n0 names sst Ho) as [conc Hb]. exists conc. eapply builtcplx_later; eauto.
+    - intros n0 i0 o0 Hd Ho k0 Hk0. cbn [r_st r' hold heap] in Ho. rewrite heap_mk_new in Ho.
+      cbn [r_st r']. change (cget (hold ?s ?j) ?c) with (cget s c).
+      destruct (kind_eqb k KindC) eqn:E.
+      + assert (k = KindC) by (destruct k; cbn in E; congruence). subst k. cbn [ReaderSysA.cls_of] in *.
+        subst acc'. cbn [with_dict with_complexes po_complexes dict_of] in Hd. rewrite dlookup_dset in Hd.
+        rewrite canon_mk_new by (rewrite Lc; apply (cls_of_lt KindC)).
+        destruct (str_eqb n0 nm) eqn:En.
+        * injection Hd as <-. fold i in Ho. unfold i in Ho. rewrite hget_new in Ho. injection Ho as <-.
+          cbn [o_keys new_obj] in Hk0.
+          assert (Ex : existsb (key_eqb k0) (key :: extra) = true).
+          { apply existsb_exists. exists k0. split; [exact Hk0 | apply key_eqb_iff; reflexivity]. }
+          rewrite Ex. reflexivity.
+        * assert (Hlt : i0 < length (heap (r_st r))) by
+            (destruct (reg_live ct _ _ n0 i0 I0 (cls_of_lt KindC) (eq_trans (Creg KindC ltac:(discriminate) n0) Hd)) as [ox [Hox _]];
+             eapply hget_lt; eauto).
+          rewrite hget_old in Ho by lia.
+          pose proof (Crot n0 i0 o0 Hd Ho k0 Hk0) as Hold.
+          destruct (existsb (key_eqb k0) (key :: extra)) eqn:Ex; [|exact Hold]. exfalso.
+          apply existsb_exists in Ex. destruct Ex as [k1 [Hk1 Ek]]. apply key_eqb_iff in Ek. subst k1.
+          destruct F as [_ [F2 F3]]. cbn [ReaderSysA.cls_of] in F2, F3. destruct Hk1 as [<-|Hk1]; [congruence | rewrite (F3 _ Hk1) in Hold; discriminate].
+      + assert (Dk : k <> KindC) by (intros ->; discriminate).
+        rewrite cget_mk_new_other by (change cc with (cls_of KindC); intros Ec; apply cls_of_inj in Ec; contradiction).
+        subst acc'. change (po_complexes (with_dict k acc (dset nm i (dict_of k acc)))) with (dict_of KindC (with_dict k acc (dset nm i (dict_of k acc)))) in Hd.
+        rewrite dict_with_other in Hd by exact Dk. cbn [dict_of] in Hd.
+        assert (Hlt : i0 < length (heap (r_st r))) by
+          (destruct (reg_live ct _ _ n0 i0 I0 (cls_of_lt KindC) (eq_trans (Creg KindC ltac:(discriminate) n0) Hd)) as [ox [Hox _]];
+           eapply hget_lt; eauto).
+        rewrite hget_old in Ho by lia. exact (Crot n0 i0 o0 Hd Ho k0 Hk0).
   Qed.
 End Add.
 
